@@ -215,6 +215,14 @@ class Ctx:
         if not cases:
             self.corr[name] = {'cases': 0, 'disagreements': 0}
             return []
+        # the case files import compiled modules of the development: make sure they are built (incremental, locked)
+        need = sorted(set(m.replace('.', '/') + '.vo' for m in re.findall(r'Spectrum\.((?:Theory|Model|Instances|Proofs|Properties)\.[A-Za-z0-9_]+)', preamble)))
+        need = [t for t in need if not os.path.exists(os.path.join(COQ, t)) or
+                os.path.getmtime(os.path.join(COQ, t)) < os.path.getmtime(os.path.join(COQ, t[:-1]))]
+        if need:
+            rc, log = make_cone(' '.join(need))
+            if rc != 0:
+                self.broken.append({'theorem': 'build of modules needed by correspondence:%s' % name, 'where': ' '.join(need), 'log': log[-1500:]})
         files = []
         for s in range(0, len(cases), shard):
             chunk = cases[s:s + shard]
